@@ -7,10 +7,10 @@ PROPS = [json.loads(l) for l in open('/verif/properties.jsonl')]
 # id -> (technique, level text, level note)
 CLAIMED = {
  "C02": ("static analysis: linear-inequality abstract interpretation (panic obligations) + must-write dataflow",
-         "every index/slice/precondition obligation reachable from Header.Unmarshal, Packet.Unmarshal, GetExtension, GetExtensionIDs is proved from the dominating guards for all inputs (no assumed obligation in this scope); every decoded field is shown to be (re)defined on every success path, so decoding into a used receiver equals decoding into a fresh one",
+         "every index/slice/precondition obligation reachable from Header.Unmarshal, Packet.Unmarshal, GetExtension, GetExtensionIDs is proved from the dominating guards for all inputs (no assumed obligation in this scope); every decoded field is shown to be (re)defined on every success path, so decoding into a used receiver equals decoding into a fresh one ; the capacity of a reused receiver buffer flows only into comparisons and make (STRUCT.capflow), so nothing decoded depends on earlier calls",
          "assumes no int overflow for lengths <= 2^40, non-nil receivers, the stdlib model; does not compare decoded values with the input bytes"),
  "C04": ("static analysis: linear-inequality abstract interpretation over MarshalTo/Marshal",
-         "no-panic obligations of Header/Packet MarshalTo, Marshal, MarshalSize for every header state and destination length; the obligations that need the MarshalSize/MarshalTo sum invariant are listed as assumed with their reason",
+         "no-panic obligations of Header/Packet MarshalTo, Marshal, MarshalSize for every header state and destination length; the obligations that need the MarshalSize/MarshalTo sum invariant are listed as assumed with their reason ; a write inside a loop goes to a position that advances with the loop (STRUCT.loopdest); the size guard dominates the writes made by helpers that are handed the buffer",
          "assumed entries (cursor < size) rest on the size agreement between MarshalSize and MarshalTo; byte equality with Marshal() is not decided"),
  "C05": ("static analysis: linear-inequality abstract interpretation over the extension accessors",
          "no-panic obligations of SetExtension/DelExtension/GetExtension/GetExtensionIDs and a following Marshal for every header state reachable through the public fields",
@@ -28,10 +28,10 @@ CLAIMED = {
          "Marshal/Unmarshal of the five fixed-size extension codecs never panic for any input length (all obligations proved) and every decoded field is defined on every success path (receiver-independent result)",
          "bit-exact layout conformance is decided by the BITS rules (per_rule); the shortest accepted input of every codec equals its wire size (BOUNDS.minlen), so a length guard made stricter is reported as well as one made weaker; Marshal fails only for values outside the codec's range table (CTR.total) and returns exactly the wire size, 8 or 16 octets for abs-capture-time by the presence of the offset (CTR.size)"),
  "C19": ("static analysis: linear-inequality abstract interpretation + must-write dataflow",
-         "VLA.Unmarshal never panics on any input (one assumed obligation about a copied slice header) and resets every decoded field; VLA.Marshal's validation dominates its table indexing; payload writes rely on the requiredLen sum invariant (assumed, listed)",
+         "VLA.Unmarshal never panics on any input (one assumed obligation about a copied slice header) and resets every decoded field; VLA.Marshal's validation dominates its table indexing; payload writes rely on the requiredLen sum invariant (assumed, listed) ; every walk over streams and spatial ids is canonical (0..bound-1, step 1, no early end: STRUCT.vlawalk); the parts of the size pass that depend only on the stream count and the number of layers cover what the layout needs, for every count (SIBLING.vlasize, constant folding of the stored expressions)",
          "shortest accepted input (2 octets) is checked (BOUNDS.minlen); byte-exact conformance of the variable-length body and round-trip equality are not decided"),
  "C20": ("static analysis: flow-sensitive origin (alias) analysis",
-         "every reference reachable from the value returned by Packet.Clone / Header.Clone is memory allocated inside Clone or nil, on every path (independence decided through its cause)",
+         "every reference reachable from the value returned by Packet.Clone / Header.Clone is memory allocated inside Clone or nil, on every path (independence decided through its cause) ; a per-element buffer is made afresh for every element (STRUCT.accfresh)",
          "STRUCT.clone adds the necessary conditions of equality: every field written on every path (or nil in the original), from the same field, every fresh slice filled from the slice whose length it takes; every copy() made by Clone has a destination exactly as long as its source (linear contract); byte equality itself is not decided"),
 }
 CLAIMED.update({k: tuple(v) for k, v in json.load(open('/verif/tools/claimed_extra.json')).items()})
